@@ -89,6 +89,13 @@ class Ctx:
     def note(self, text):
         self.notes.append(text)
 
+    def adopt(self, other, mapping):
+        """take over the instances of another context's rules under this property's rule ids (mapping: their id -> ours);
+        used where one property's clause is literally another property's rule (e.g. 'survives the codec' = C01's rules)"""
+        for inst in other.instances:
+            if inst.rule in mapping:
+                self.instances.append(Instance(mapping[inst.rule], inst.file, inst.function, inst.construct, inst.verdict, inst.what, inst.line, inst.extra))
+
     def check(self, rule, cond, where, construct, what_bad, what_ok=""):
         """cond: True -> HOLDS, False -> VIOLATION, None -> UNDECIDED"""
         if cond is True:
